@@ -201,7 +201,7 @@ def history(rng, profile=None, length=None):
         elif k < 0.92:
             g.ops.append("proc app %s run=%s" % (h, rng.choice(["-", run or "-", "rX"] + g.dead_runs[-1:])))
         elif k < 0.96:
-            g.ops.append("proc advance %d" % rng.choice([1, 29, 31, 31, 300, 601, 601]))
+            g.ops.append("proc advance %d" % rng.choice([1, 27, 31, 31, 300, 601, 601]))
             if timeout and g.ops[-1].endswith("601"):
                 pass
         else:
@@ -303,7 +303,7 @@ def lifecycle_history(rng):
                 else:
                     g.ops.append("proc reply %s connect 0 %s" % (h, out))
             # probe the back-off window: queries inside it must not move it
-            a = rng.choice([1, 10, 20, 29])
+            a = rng.choice([1, 10, 20, 27])
             g.ops.append("proc advance %d" % a)
             g.ops.append("proc app %s run=%s" % (h, rng.choice(["-", "rX"])))
             g.ops.append("proc advance %d" % rng.choice([30 - a, 31 - a, 30, 5]))
@@ -341,7 +341,7 @@ def lifecycle_history(rng):
                 g.ops.append("proc app %s run=%s" % (h, run))
         elif run and timeout and k < 0.7:
             # inactivity: the run is dropped at the next harvest tick, agents must then be told to reconnect
-            g.ops.append("proc advance %d" % rng.choice([601, 599, 700]))
+            g.ops.append("proc advance %d" % rng.choice([601, 597, 700]))
             g.ops.append("proc trigger %s %d" % (run, rng.choice([ALL, DEFAULT, 32])))
             g.ops.append("proc state")
             g.ops.append("proc app %s run=%s" % (h, run))
